@@ -17,11 +17,11 @@ import (
 func init() { Registry["C17"] = C17 }
 
 type c17Scn struct {
-	MsgsA   int   `json:"msgs_a"`   // messages A -> B
-	MsgsB   int   `json:"msgs_b"`   // messages B -> A
-	Size    int   `json:"size"`     // 0 small (2 chunks), 1 three chunks, 2 about twenty chunks
-	Latency int   `json:"latency"`  // index into c17Latencies (virtual time per Write)
-	TxBuf   int   `json:"txbuf"`    // 0 transport without TxBufferLen, 1 reports 0, 2 reports more than remains, 3 reports a draining queue
+	MsgsA   int   `json:"msgs_a"`  // messages A -> B
+	MsgsB   int   `json:"msgs_b"`  // messages B -> A
+	Size    int   `json:"size"`    // 0 small (2 chunks), 1 three chunks, 2 about twenty chunks
+	Latency int   `json:"latency"` // index into c17Latencies (virtual time per Write)
+	TxBuf   int   `json:"txbuf"`   // 0 transport without TxBufferLen, 1 reports 0, 2 reports more than remains, 3 reports a draining queue
 	Choices []int `json:"choices,omitempty"`
 }
 
